@@ -2,6 +2,7 @@ package checks
 
 import (
 	"fmt"
+	"io/fs"
 	"strings"
 
 	"github.com/avfs/avfs"
@@ -322,6 +323,110 @@ func c05History(c *rt.Ctx, fsType string, osType avfs.OSType, h int) {
 	c.Rep.Sample(map[string]any{"fs": tag, "last_calls": hist[max(0, len(hist)-6):]}, 4)
 }
 
+// c05Volumes: the tree of a Windows-typed MemFS is a forest, one root per volume, and hard links and renames cross the
+// volumes; volumes are added and deleted with their content meanwhile. After every call the link count of every regular
+// file of every volume equals the number of paths, over all the volumes, that are SameFile with it, and the internal
+// checker (which walks every volume) agrees.
+func c05Volumes(c *rt.Ctx, h int) {
+	r := c.Rand(fmt.Sprintf("c05-vol-%d", h))
+	v := memfs.NewWithOptions(&memfs.Options{OSType: avfs.OsWindows})
+	if v.OSType() != avfs.OsWindows {
+		return
+	}
+	vols := []string{"C:", "D:", "E:"}
+	names := []string{`\f`, `\g`, `\d`, `\d\f`, `\d\g`, `\d\e`, `\d\e\f`}
+	var hist []string
+	replay := func() any { return map[string]any{"fs": "MemFS", "os": "Windows", "history": hist} }
+	pick := func() string { return vols[r.IntN(len(vols))] + names[r.IntN(len(names))] }
+	n := c.Pick(40, 80)
+	for i := 0; i < n; i++ {
+		fsx.BeginCall()
+		var what string
+		var err error
+		kind := ""
+		switch k := r.IntN(20); {
+		case k < 2:
+			vol := vols[1+r.IntN(2)]
+			kind, err = "VolumeAdd", v.VolumeAdd(vol)
+			what = fmt.Sprintf("VolumeAdd(%q)", vol)
+		case k < 4:
+			vol := vols[1+r.IntN(2)]
+			kind, err = "VolumeDelete", v.VolumeDelete(vol)
+			what = fmt.Sprintf("VolumeDelete(%q)", vol)
+		case k < 8:
+			p := pick()
+			kind, err = "WriteFile", v.WriteFile(p, []byte(p), 0o644)
+			what = fmt.Sprintf("WriteFile(%q)", p)
+		case k < 10:
+			p := pick()
+			kind, err = "MkdirAll", v.MkdirAll(p, 0o755)
+			what = fmt.Sprintf("MkdirAll(%q)", p)
+		case k < 14:
+			p, q := pick(), pick()
+			kind, err = "Link", v.Link(p, q)
+			what = fmt.Sprintf("Link(%q,%q)", p, q)
+		case k < 16:
+			p, q := pick(), pick()
+			kind, err = "Rename", v.Rename(p, q)
+			what = fmt.Sprintf("Rename(%q,%q)", p, q)
+		case k < 18:
+			p := pick()
+			kind, err = "Remove", v.Remove(p)
+			what = fmt.Sprintf("Remove(%q)", p)
+		default:
+			p := pick()
+			kind, err = "RemoveAll", v.RemoveAll(p)
+			what = fmt.Sprintf("RemoveAll(%q)", p)
+		}
+		hist = append(hist, fmt.Sprintf("%s -> %v", what, err))
+		c.Rep.Case(fmt.Sprintf("MemFS/Windows|volumes|%s|%s", kind, fsx.ErrClass(err)), i > 0)
+		// public view: every regular file of every volume
+		fsx.BeginCall()
+		type ent struct {
+			path string
+			fi   fs.FileInfo
+		}
+		var files []ent
+		for _, vol := range v.VolumeList() {
+			budget := 4000
+			_ = v.WalkDir(vol+`\`, func(path string, d fs.DirEntry, werr error) error {
+				budget--
+				if budget < 0 {
+					return fmt.Errorf("walk budget exceeded")
+				}
+				if werr == nil && d != nil && d.Type().IsRegular() {
+					if fi, err := v.Lstat(path); err == nil {
+						files = append(files, ent{path, fi})
+					}
+				}
+				return nil
+			})
+			if budget < 0 {
+				c.Disagree("MemFS/Windows|volumes|"+kind+"|walk-does-not-end", fmt.Sprintf("Windows-typed MemFS: after %v the walk of volume %s does not end", hist[max(0, len(hist)-5):], vol), replay())
+				return
+			}
+		}
+		for _, a := range files {
+			same := 0
+			for _, b := range files {
+				if v.SameFile(a.fi, b.fi) {
+					same++
+				}
+			}
+			if nl := v.ToSysStat(a.fi).Nlink(); nl != uint64(same) {
+				c.Disagree("MemFS/Windows|volumes|"+kind+"|nlink-differs-from-names", fmt.Sprintf("Windows-typed MemFS: after %v the link count of %s is %d but %d path(s) over the volumes %v are SameFile with it", hist[max(0, len(hist)-6):], a.path, nl, same, v.VolumeList()), replay())
+				return
+			}
+		}
+		if bad := v.VerifCheck(); len(bad) > 0 {
+			c.Disagree("MemFS/Windows|volumes|"+kind+"|internal-invariant:"+firstWords(bad[0]), fmt.Sprintf("Windows-typed MemFS: after %v the internal structure is inconsistent: %v", hist[max(0, len(hist)-6):], bad[:min3(4, len(bad))]), replay())
+			return
+		}
+	}
+	c.Rep.Count("complete_volume_histories", 1)
+	c.Rep.Sample(map[string]any{"fs": "MemFS/Windows volumes", "last_calls": hist[max(0, len(hist)-6):]}, 2)
+}
+
 func firstWords(s string) string {
 	f := strings.Fields(s)
 	var out []string
@@ -469,6 +574,11 @@ func init() {
 			for h := 0; h < c.Pick(3000, 60000); h++ {
 				if h%c.NShards == c.Shard {
 					c05Partial(c, h, false)
+				}
+			}
+			for h := 0; h < c.Pick(600, 12000); h++ {
+				if h%c.NShards == c.Shard {
+					c05Volumes(c, h)
 				}
 			}
 		},
